@@ -55,6 +55,23 @@ def run(c):
             reported += 1
     # verdicts that do not reproduce when the script is re-run alone are timing artefacts of the loaded batch run (goroutine
     # census / late-export window): recorded in the evidence (unconfirmed, unconfirmed_clauses), not reported
+    # composition (specs/Pipeline): the drain clause seen end to end through a real service
+    # (test receiver -> real batch processor -> exporter helper -> scripted backend)
+    if not c.replay:
+        import pipelib
+        pscripts, pverd, pbyid, pbin = pipelib.run_pipeline(c, c.pick(60, 600))
+        c.traces_validated += len(pscripts)
+        c.extra["pipeline_scripts"] = len(pscripts)
+        rep = 0
+        for v in pverd:
+            if rep >= 5:
+                break
+            ps = pbyid[v["script"]]
+            c.violation("pipeline composition: %s violated: %s; cfg=%s steps=%s outcomes=%s" % (
+                v["clause"], v["detail"], ps["cfg"], [(x["op"], x["item"]) for x in ps["steps"]], ps["outcomes"]),
+                replay_obj=dict(kind="pipeline", script=ps))
+            rep += 1
+        c.log("pipeline composition: %d scripts, %d verdict lines" % (len(pscripts), len(pverd)))
     ex = scripts[len(scripts) // 2]
     c.sample(dict(script=xslib.fmt(ex), events=[json.loads(l) for l in lines if True][:0]))
     c.sample(dict(kind="recorded events of one script", events=[json.loads(l) for l in lines[:16]]))
